@@ -6,11 +6,11 @@
 (*   Head{s, status, cl, hop}   response head (cl = -1: no content-length; hop: a           *)
 (*        connection-specific header was present)                                           *)
 (*   Data{s, n, ok}   End{s}   Rst{s}   Blocked{s}  (no frame although the client's window   *)
-(*        for s is open)   Done                                                             *)
+(*        for s is open)   Pulled{s, n} bytes pulled out of the handler's body   Done        *)
 EXTENDS Integers, Sequences, FiniteSets, TLC
 Rej(sig, clause) == [tag |-> "rej", sig |-> sig, clause |-> clause]
 E(c, ok, sig) == IF c THEN ok ELSE Rej(sig, "")
-RefInit(e) == [tag |-> "ok", st |-> e.streams, got |-> [i \in 1..Len(e.streams) |-> 0], headed |-> {}, ended |-> {}, bad |-> {}]
+RefInit(e) == [tag |-> "ok", st |-> e.streams, window |-> e.window, got |-> [i \in 1..Len(e.streams) |-> 0], headed |-> {}, ended |-> {}, bad |-> {}]
 Bodiless(x) == x.method = "HEAD" \/ x.status \in {204, 304} \/ (x.status >= 100 /\ x.status < 200)
 ExpLen(x) == IF Bodiless(x) THEN 0 ELSE IF x.sized THEN (IF x.declared < x.total THEN x.declared ELSE x.total) ELSE x.total
 \* a sized body that does not produce exactly its declared size is the handler's error: nothing is required of such a stream
@@ -41,6 +41,13 @@ RefStep(rs, e) ==
            "C08/End/body-incomplete"),
           "C08/End/without-head")
     [] e.ev = "Rst" -> LET x == rs.st[e.s] IN E(~Complete(x) \/ x.client_resets, [rs EXCEPT !.ended = @ \cup {e.s}], "C08/Rst/complete-body-reset")
+    \* independence: once the client has reset a stream (or simply never reads it) the handler's body is not pulled on and on -
+    \* an endless ready body would keep the worker busy for nobody and starve the other streams.  What can have been pulled is what
+    \* the client took, plus one stream window, plus the chunk in hand (and one frame of slack).
+    [] e.ev = "Pulled" ->
+         LET x == rs.st[e.s] IN
+         E(~(x.client_resets \/ x.policy = "never") \/ e.n <= rs.got[e.s] + rs.window + 2 * x.maxchunk + 16384, rs,
+           "C08/Independent/body-of-an-abandoned-stream-pulled-to-its-end")
     [] e.ev = "Blocked" ->
          \* the client's window for s was open and everything released, yet nothing arrived
          LET x == rs.st[e.s] IN E(x.policy = "never" \/ x.stuck_handler, rs, "C08/Blocked/stream-stalls-with-open-window")
